@@ -25,9 +25,9 @@ import (
 	"pgregory.net/rapid"
 	"verif.local/ref/deephash"
 	"verif.local/ref/gcmref"
-	"verif.local/ref/sm4ref"
 	"verif.local/ref/gen"
 	"verif.local/ref/sm2gen"
+	"verif.local/ref/sm4ref"
 	"verif.local/ref/stats"
 	"verif.local/ref/vt"
 )
